@@ -258,7 +258,8 @@ func c05Shapes(thorough bool) []shape {
 		name string
 		v    map[string]map[string][]byte
 	}{
-		{"nil", nil}, {"fam-nil", map[string]map[string][]byte{"f": nil}}, {"one", map[string]map[string][]byte{"f": {"q": []byte("v1")}}},
+		{"nil", nil}, {"fam-nil", map[string]map[string][]byte{"f": nil}}, {"fam-empty", map[string]map[string][]byte{"f": {}}},
+		{"one", map[string]map[string][]byte{"f": {"q": []byte("v1")}}}, {"one-nilvalue", map[string]map[string][]byte{"f": {"q": nil}}},
 		{"two-fams", map[string]map[string][]byte{"f": {"q1": []byte("v1"), "q2": nil}, "g": {"": []byte{}}}},
 		{"fam-nil+qual", map[string]map[string][]byte{"a": nil, "b": {"q": []byte("v")}}},
 	}
